@@ -148,6 +148,8 @@ class MinimizerScipyOptimize(MinimizerBase):
 
     def unlimit(self, parameter_name):
         _par_id = self._par_names.index(parameter_name)
+        if self._par_bounds is None:
+            return  # no parameter is limited
         self._par_bounds[_par_id] = (None, None)
         _all_pars_unbounded = True
         for _par_bound in self._par_bounds:
